@@ -1,0 +1,15 @@
+//go:build verif
+// +build verif
+
+package account
+
+// VerifC03ReleaseCaches returns the off-heap chunks of the code cache of a database created by
+// NewDatabase to fastcache's free list. The C03 check opens a brand-new AccountDatabase for every
+// crash prefix; without this the mmap'ed chunks of every discarded instance stay allocated until
+// the worker process exits. No behaviour of the database under test depends on it: it is called
+// only when the instance is thrown away.
+func VerifC03ReleaseCaches(db AccountDatabase) {
+	if s, ok := db.(*storageDB); ok && s.codeCache != nil {
+		s.codeCache.Reset()
+	}
+}
